@@ -601,6 +601,66 @@ def _work_notes(part, chunk):
 
 # ---- run -----------------------------------------------------------------------------------------------------
 
+# ---- D: the layout is edited between two uses ----------------------------------------------------------------------
+# "any layout ... repeated additions interleaved with other edits": a slide mirrors the layout AS IT IS when the slide
+# is added. Per template layout x every cloneable placeholder k of it x warm-up {none, add a slide first, iterate
+# layout.placeholders first, read an inherited dimension first}: warm up, remove placeholder k from the layout through
+# the documented `shape.element` (`el.getparent().remove(el)`, the idiom users apply since there is no delete call),
+# add a slide, compare with the expectations read (bare lxml) from the layout part's CURRENT blob.
+
+LAYOUT_EDIT_WARMUPS = ["none", "add_slide", "iterate", "inherited-dimension"]
+
+
+def layout_edit_cases():
+    prs = F.open_prs()
+    cases = []
+    for li, layout in enumerate(prs.slide_layouts):
+        exp = L.LayoutExp(layout.part.blob, layout.slide_master.part.blob)
+        for k in range(len(exp.clone)):
+            for w in LAYOUT_EDIT_WARMUPS:
+                cases.append((li, k, w))
+    return cases
+
+
+def eval_layout_edit(li, k, warm):
+    prs = F.open_prs()
+    layout = prs.slide_layouts[li]
+    if warm == "add_slide":
+        prs.slides.add_slide(layout)
+    elif warm == "iterate":
+        for ph in layout.placeholders:
+            ph.placeholder_format.idx
+    elif warm == "inherited-dimension":
+        for ph in layout.placeholders:
+            ph.left, ph.width
+    exp0 = L.LayoutExp(layout.part.blob, layout.slide_master.part.blob)
+    target = exp0.phs[exp0.clone[k]]
+    victim = [ph for ph in layout.placeholders if ph.placeholder_format.idx == target["idx"]]
+    if len(victim) != 1:
+        raise HarnessError("layout %d: %d placeholders with idx %r" % (li, len(victim), target["idx"]))
+    el = victim[0].element
+    el.getparent().remove(el)
+    exp = L.LayoutExp(layout.part.blob, layout.slide_master.part.blob)
+    if len(exp.clone) != len(exp0.clone) - 1:
+        raise HarnessError("layout %d: removal of placeholder %d left %d cloneable placeholders of %d"
+                           % (li, k, len(exp.clone), len(exp0.clone)))
+    _slide, fails = _add_and_check(prs, layout, exp)
+    for f in fails:
+        f.attrs = list(f.attrs) + [("ctx", "layout-edited-after=%s" % warm)]
+    return fails
+
+
+def _work_layout_edit(part, chunk):
+    for li, k, w in chunk:
+        fails = eval_layout_edit(li, k, w)
+        part.count("evaluations")
+        part.count("layout_edit_cases")
+        part.count("nontrivial_count")
+        part.outcome("layout-edit", "ok" if not fails else "fail")
+        _report(part, fails, "template layout %d, placeholder %d removed after warm-up %r, then add_slide" % (li, k, w),
+                {"kind": "layout-edit", "layout": li, "ph": k, "warm": w})
+
+
 def _batches(cases, ctx):
     """Group cases of one master variant into decks of batch_size() populations; the seed rotates the batch list."""
     bs = G.batch_size()
@@ -750,6 +810,13 @@ def run(ctx):
     ctx.extra["spaces"]["notes_master_pairs_names"] = npn_n
     ctx.extra["spaces"]["notes_corpus_decks_x_names"] = 2 * len(F.corpus())
 
+    # ---- D
+    le = layout_edit_cases()
+    fanout(ctx, _work_layout_edit, ctx.rotate(le), min_parallel=4)
+    if ctx.counters.get("layout_edit_cases") != len(le) or len(le) < 40:
+        raise HarnessError("layout-edit cases %r != %d" % (ctx.counters.get("layout_edit_cases"), len(le)))
+    ctx.extra["spaces"]["layout_edited_between_uses"] = len(le)
+
     # ---- C
     c13_hist.run(ctx)
 
@@ -776,6 +843,8 @@ def replay(data):
     if k == "notes-gen":
         fails, _ = eval_notes(G.build_notes_deck(data["pop"])[0])
         return _match(fails, data)
+    if k == "layout-edit":
+        return _match(eval_layout_edit(data["layout"], data["ph"], data["warm"]), data)
     if k == "hist":
         from mc.props import c13_hist
         return explorer.replay_history(c13_hist.System(), data)
